@@ -24,7 +24,7 @@ def arm_facts(b, region):
                 out.add("agg:" + s["rv"]["var"])
         t = b.term(i)
         if t["k"] == "call" and t["f"].startswith(RS + "::"):
-            out.add("call:" + t["f"].rsplit("::", 1)[1])
+            out.add("call:" + t["f"].rsplit("::", 1)[-1])
     return out
 
 
@@ -78,15 +78,15 @@ def run(ctx):
             continue
         bs = ctx.bodies_of(n)
         b = ctx.body(n)
-        short = ty.rsplit("::", 1)[1]
+        short = ty.rsplit("::", 1)[-1]
         fm = b.calls(re.escape(RS) + r"::from_mode$")
         ctx.ob(f"{short}|uses-from_mode", len(fm) == 1 and "param:3" in origin_names(b, fm[0][1]["args"][0]) if fm else False, "the rounding mode parameter is resolved by from_mode", b.loc())
         gs = b.enum_guards(re.escape(RS) + "$")
         ctx.ob(f"{short}|strategy-match", len(gs) >= 1 and all(g[2] is None for g in gs), f"{len(gs)} exhaustive match(es) on ResolvedRoundingStrategy", b.loc())
         for bb, ed, ow, si in gs[:1]:
             ex = arm_regions(b, bb, ed)
-            up = {b.term(x)["f"].rsplit("::", 1)[1] for x in ex.get("RoundUp", set()) if b.term(x)["k"] == "call"}
-            dn = {b.term(x)["f"].rsplit("::", 1)[1] for x in ex.get("RoundDown", set()) if b.term(x)["k"] == "call"}
+            up = {b.term(x)["f"].rsplit("::", 1)[-1] for x in ex.get("RoundUp", set()) if b.term(x)["k"] == "call"}
+            dn = {b.term(x)["f"].rsplit("::", 1)[-1] for x in ex.get("RoundDown", set()) if b.term(x)["k"] == "call"}
             ctx.ob(f"{short}|RoundUp-adds", "checked_add" in up, f"RoundUp arm calls {sorted(up)}", b.loc(bb))
             ctx.ob(f"{short}|RoundDown-subtracts", "checked_sub" in dn and "checked_add" not in dn, f"RoundDown arm calls {sorted(dn)}", b.loc(bb))
     ctx.rule("T8 sibling cross-check: Decimal::checked_round and PreciseDecimal::checked_round are the same algorithm over two widths — per "
@@ -100,7 +100,7 @@ def run(ctx):
         b = ctx.body(n_)
         for bb, ed, ow, si in b.enum_guards(r"ResolvedRoundingStrategy$"):
             ex = arm_regions(b, bb, ed)
-            tabs[ty] = ({v: sorted(re.sub(r"<.*?>", "", t["f"]).rsplit("::", 1)[1] for x_, t in b.calls() if x_ in reg and not re.search(r"Try|from_residual", t["f"]))
+            tabs[ty] = ({v: sorted(re.sub(r"<.*?>", "", t["f"]).rsplit("::", 1)[-1] for x_, t in b.calls() if x_ in reg and not re.search(r"Try|from_residual", t["f"]))
                          for v, reg in ex.items()}, b.loc(bb))
             break
     ok = len(tabs) == 2 and tabs["decimal::Decimal"][0] == tabs["precise_decimal::PreciseDecimal"][0]
